@@ -1,18 +1,24 @@
 (* C06 property theorems.  Statements closed by `exact`, plus satisfiability examples; pinned in coq/pins/C06.txt.
 
-   Full statement aimed at (DESIGN Appendix A), kept here for reference:
+   The two full statements of DESIGN Appendix A are proved below:
      [full 1] C06_pratt_eq_grammar : forall c, table_ok c = true -> forall fuel ts,
-       Model.parse c fuel ts = Grammar.parse_strict fuel ts.
-     [full 2] C06_print_parse_roundtrip : forall c, table_ok c = true -> forall e, exists fuel,
-       Model.parse c fuel (print_stmt (SExpr e)) = Ok (SExpr e).
-   Proved below: the operator layer of the first statement (every precedence level, every operand parser that
-   consumes input, every table satisfying table_ok), instantiated at every entry point the parser uses over the
-   model's own parse_unary.  Missing for the full first statement: the congruence lifting through the shared
-   bracket grammar (Model.Body is the same Gallina code on both sides, parametric in the operator layer) and the
-   lemma that parse_argument's re-entry after a consumed identifier equals parse_test.  The second statement
-   (printer) is not proved; it is checked by the tie on every case (model printer = Display tokens, re-parse = same tree). *)
+       Model.parse c fuel ts = Grammar.parse_strict fuel ts
+     (every binding-power table with table_ok, every fuel, every token list: same tree, same rejection, same
+     out-of-fuel; C06_parse_fuel_mono says a definitive answer never changes with more fuel), through the
+     congruence of the shared bracket grammar (Parse/ProofsFull.v, no functional extensionality) and
+     C06_argument_reentry_eq (parse_argument's re-entry after a consumed identifier = parse_test).
+     [full 2] C06_print_parse_roundtrip : forall c, table_ok c = true -> forall e, printable e = true ->
+       forall fuel, esize e <= S fuel -> Model.parse c fuel (print_stmt (SExpr e)) = Ok (SExpr e)
+     for ALL expression constructors (Parse/PrintProofs.v); `printable` asks only what the parser guarantees of its
+     own output (valid call arguments, valid lambda parameters, comprehensions starting with `for`, normalised
+     assignable loop targets); corollaries C06_print_fixpoint and C06_print_injective.
+   Also for the assignment statement (C06_print_parse_roundtrip_stmt) and at the tie's own fuel
+     (C06_print_parse_roundtrip_extracted).
+   The earlier operator-layer theorems (C06_pratt_binary_partial etc.) are kept unchanged: the full statement is
+   built on them.  Not modelled in Coq: statements other than the one-line expression / assignment statement. *)
 From Coq Require Import ZArith NArith List Bool.
-From SV Require Import Parse.Tokens Parse.Ast Parse.Model Parse.Grammar Parse.Print Parse.Cases Parse.Proofs.
+From SV Require Import Parse.Tokens Parse.Ast Parse.Model Parse.Grammar Parse.Print Parse.Cases Parse.Proofs
+  Parse.ProofsFull Parse.PrintProofs.
 Import ListNotations.
 
 (* the tables re-extracted from parser_rd.rs on this run satisfy the well-formedness predicate *)
@@ -60,3 +66,84 @@ Example C06_example_run :
   /\ run_grammar ts = run_model ts
   /\ run_model (run_print (SExpr (EOp (ENot (EOp (EId 1) Equal (EId 2))) Or (EOp (EId 3) Multiply (EMinus (EId 4))))))%N = run_model ts.
 Proof. vm_compute. repeat split; reflexivity. Qed.
+
+(* ---- whole expressions and statements ---- *)
+
+(* [full 1] the model of parser_rd.rs and the stratified reference grammar are the same function of the token list *)
+Theorem C06_pratt_eq_grammar : forall c, table_ok c = true -> forall fuel ts,
+  Model.parse c fuel ts = Grammar.parse_strict fuel ts.
+Proof. exact pratt_eq_grammar. Qed.
+
+(* the same for a single Test (the entry used inside brackets, argument lists, lambda bodies, ...) *)
+Theorem C06_pratt_eq_grammar_test : forall c, table_ok c = true -> forall fuel ts,
+  parse_test_m c fuel ts = parse_test_g fuel ts.
+Proof. exact pratt_eq_grammar_test. Qed.
+
+(* at the tables extracted from parser_rd.rs on this run, with the fuel the tie uses *)
+Theorem C06_run_model_eq_grammar : forall ts, run_model ts = run_grammar_strict ts.
+Proof. exact run_model_eq_grammar. Qed.
+
+(* parse_argument: having consumed an identifier that is not followed by `=`, continue_primary ; continue_infix(c_arg) ;
+   continue_ternary builds exactly what parse_test builds on the stream that still has the identifier *)
+Theorem C06_argument_reentry_eq : forall c, table_ok c = true -> forall R k r,
+  ('(e1, r1) <- continue_primary R (EId k) r ;;
+   if Nat.leb (List.length r1) (List.length r) then
+     '(e2, r2) <- continue_infix c (parse_unary c R) (c_arg c) e1 r1 ;;
+     '(e3, r3) <- continue_ternary R e2 r2 ;;
+     Ok (APos e3, r3)
+   else Err 99)
+  = '(e, r') <- parse_test c (pratt_impl c) R (TIdentifier k :: r) ;; Ok (APos e, r').
+Proof. exact argument_reentry_eq. Qed.
+
+(* fuel: any answer other than out-of-fuel (a tree, a rejection, `Unmodelled`) is the answer at every larger fuel *)
+Theorem C06_parse_fuel_mono : forall c, table_ok c = true -> forall f f' ts, (f <= f')%nat ->
+  Model.parse c f ts <> Oof -> Model.parse c f' ts = Model.parse c f ts.
+Proof. exact model_fuel_mono. Qed.
+
+(* [full 2] printing (ast.rs Display) then parsing gives the tree back - every expression constructor *)
+Theorem C06_print_parse_roundtrip : forall c, table_ok c = true -> forall e, printable e = true ->
+  forall fuel, (esize e <= S fuel)%nat -> Model.parse c fuel (print_stmt (SExpr e)) = Ok (SExpr e).
+Proof. exact print_parse_roundtrip. Qed.
+
+Theorem C06_print_parse_roundtrip_large_fuel : forall c, table_ok c = true -> forall e, printable e = true ->
+  exists f0, forall fuel, (f0 <= fuel)%nat -> Model.parse c fuel (print_stmt (SExpr e)) = Ok (SExpr e).
+Proof. exact print_parse_roundtrip_large_fuel. Qed.
+
+(* the round trip inside any context: the printed expression followed by a closing bracket, `,`, `:`, `else`, `for`
+   (or nothing) is parsed back as a Test by the reference grammar, leaving exactly that rest *)
+Theorem C06_print_parse_roundtrip_in_context : forall e, printable e = true -> forall fuel, (esize e <= fuel)%nat ->
+  forall rest, folt rest -> parse_test_g fuel (print e ++ rest) = Ok (e, rest).
+Proof. exact roundtrip_test_grammar. Qed.
+
+(* with the tables extracted on this run and the fuel the tie gives the model (fuel_for = tokens + 2, which is at least
+   the size): the extracted model, run on the printed tokens, returns the tree *)
+Theorem C06_print_parse_roundtrip_extracted : forall e, printable e = true -> run_model (print e) = Ok (SExpr e).
+Proof. exact run_model_print_roundtrip. Qed.
+
+(* both statement forms of the model: expression statement and `target = value` (target assignable and normalised) *)
+Theorem C06_print_parse_roundtrip_stmt : forall c, table_ok c = true -> forall s, printable_stmt s = true ->
+  forall fuel, (ssize s <= S fuel)%nat -> Model.parse c fuel (print_stmt s) = Ok s.
+Proof. exact print_parse_roundtrip_stmt. Qed.
+
+(* printed text is a fixed point of parse-then-print *)
+Theorem C06_print_fixpoint : forall c, table_ok c = true -> forall e, printable e = true ->
+  forall fuel, (esize e <= S fuel)%nat ->
+  exists s, Model.parse c fuel (print e) = Ok s /\ print_stmt s = print e.
+Proof. exact print_fixpoint. Qed.
+
+(* different printable trees print differently (why comparing Display output in the tie compares trees) *)
+Theorem C06_print_injective : forall e1 e2, printable e1 = true -> printable e2 = true -> print e1 = print e2 -> e1 = e2.
+Proof. exact print_injective. Qed.
+
+(* the hypotheses are satisfiable on a tree that uses calls with every argument kind, a slice, a lambda with every
+   parameter kind, a conditional, a comprehension with a tuple target, a dict, `not in`, and unary receivers *)
+Definition C06_example_tree : expr :=
+  (ECall (EDot (EMinus (EId 1)) 2)
+     [APos (EIf (EOp (EId 3) NotIn (EList [EInt 4; EStr 5])) (ESlice (EId 6) (Some (EInt 7)) None (Some (EBitNot (EId 8)))) (ETuple [EId 9]));
+      ANamed 10 (ELambda [PNormal 11 None; PSlash; PNormal 12 (Some (EInt 13)); PNoArgs; PNormal 14 None; PKwArgs 15] (ENot (EId 11)));
+      AArgs (EListComp (EIndex2 (EId 16) (EId 17) (EId 18)) [CFor (ETuple [EId 17; EDot (EId 19) 20]) (EId 21); CIf (EId 17); CFor (EId 18) (EId 22)]);
+      AKwArgs (EDictComp (EId 23) (EDict [(EId 24, EFloat 25)]) [CFor (EId 23) (EIndex (EId 26) (EPlus (EInt 27)))])])%N.
+Example C06_example_printable :
+  printable C06_example_tree = true /\
+  run_model (print C06_example_tree) = Ok (SExpr C06_example_tree).
+Proof. vm_compute. split; reflexivity. Qed.
